@@ -73,15 +73,10 @@ structure St where
   why : String := ""
   panicked : Bool := false
 
-/-- `alt`: a second output the model also stands for on this step. Used for exactly one situation: a proof against the
-    EMPTY trie, where the pinned code fails with "proof node 0 missing" (model: `err`; reported by the harness as the
-    known finding `empty-trie-absence-proof`) while the property — and the suggested patch — answer `absent`. Both are
-    answered with `agree` here so that the check is stable across that patch; every other step has `alt = none`. -/
-def St.emit (s : St) (implOut : String) (specAccepts : String → Bool) (why : String) (alt : Option String := none) : St :=
+def St.emit (s : St) (implOut : String) (specAccepts : String → Bool) (why : String) : St :=
   match s.goLeft with
   | [] => { s with impl := implOut :: s.impl, specOk := false, why := if s.specOk then "missing-output" else s.why }
   | g :: rest =>
-    let implOut := if alt == some g then g else implOut
     let ok := g == implOut || specAccepts g
     { s with impl := implOut :: s.impl, goLeft := rest, specOk := s.specOk && ok,
              why := if s.specOk && !ok then why else s.why }
@@ -116,18 +111,17 @@ def stepOp (secure : Bool) (s : St) (op : String) : St :=
     match prove H s.t key with
     | none => { s with panicked := true }
     | some els =>
-      let r := verify (dbOf H els) (verifyFuel key + els.length) (hashRoot H s.t) key
+      let r := verifyProof H (dbOf H els) (verifyFuel key + els.length) (hashRoot H s.t) key
       let want : VRes := match rmGet s.m kb with | some v => .value v | none => .absent
       -- Spec: whatever node list Go produced must verify, against the spec root, to the content
       let accepts := fun (g : String) =>
         match g.splitOn ">" with
         | [elsS, _] =>
           let gels := (elsS.splitOn ",").map hexB
-          renderVRes (verify (dbOf H gels) (verifyFuel key + gels.length) (specRoot s.m) key) == renderVRes want
+          renderVRes (verifyProof H (dbOf H gels) (verifyFuel key + gels.length) (specRoot s.m) key) == renderVRes want
             && g.endsWith (">" ++ renderVRes want)
         | _ => false
       s.emit (renderProof els r) accepts "proof-does-not-verify-to-content"
-        (if s.m.isEmpty && els.isEmpty then some ">absent" else none)
   | ["x", k, k2] =>
     -- proof produced for k, verified for k2 against the same root: must yield k2's value, its absence, or an error
     let kb := applyKey secure (hexB k); let kb2 := applyKey secure (hexB k2)
@@ -135,10 +129,9 @@ def stepOp (secure : Bool) (s : St) (op : String) : St :=
     | none => { s with panicked := true }
     | some els =>
       let key2 := keybytesToHex kb2
-      let r := verify (dbOf H els) (verifyFuel key2 + els.length) (hashRoot H s.t) key2
+      let r := verifyProof H (dbOf H els) (verifyFuel key2 + els.length) (hashRoot H s.t) key2
       let want := match rmGet s.m kb2 with | some v => "v" ++ hexOrDash v | none => "absent"
       s.emit (renderVRes r) (fun g => g == "err" || g == want) "foreign-proof-verifies-to-wrong-value"
-        (if s.m.isEmpty && els.isEmpty then some "absent" else none)
   | _ => s
 
 def renderNib (n : Nib) : Char := hexDigit (n.val % 16)
@@ -198,7 +191,7 @@ def handle (l : String) : String :=
   | ["V", root, key, pairs] =>
     let db := dbOfPairs (parsePairs pairs)
     let k := keybytesToHex (hexB key)
-    let r := verify db (verifyFuel k + (parsePairs pairs).length + 8) (hexB root) k
+    let r := verifyProof H db (verifyFuel k + (parsePairs pairs).length + 8) (hexB root) k
     verdict (renderVRes r) go false "verifyproof-differs"
   | _ => "bad-op\tagree"
 
